@@ -55,25 +55,7 @@ func (f *c03MapFile) Text(rng *rand.Rand) string {
 	return strings.Join(lines, "\n") + "\n"
 }
 
-// c03MapFor implements the name->map rule: exact binding of the name, else the
-// nearest proper ancestor carrying a wildcard binding ("*." is the root wildcard).
-func c03MapFor(bind map[string]string, qname string) (string, bool) {
-	q := strings.ToLower(strings.TrimSuffix(qname, "."))
-	if id, ok := bind[q]; ok && q != "" {
-		return id, true
-	}
-	labels := strings.Split(q, ".")
-	if q == "" {
-		labels = nil
-	}
-	for i := 1; i <= len(labels); i++ {
-		anc := strings.Join(labels[i:], ".")
-		if id, ok := bind["*."+anc]; ok {
-			return id, true
-		}
-	}
-	return "", false
-}
+func c03MapFor(bind map[string]string, qname string) (string, bool) { return model.MapFor(bind, qname) }
 
 func c03GenMapFile(rng *rand.Rand, allowZero bool) *c03MapFile {
 	f := &c03MapFile{Maps: map[string][]model.Subnet{}, Resolver: map[string]string{}, ECS: map[string]string{}}
